@@ -83,6 +83,9 @@ def modset(body_nodes):
                 calls.add(recv + '.' + n.func.attr)
                 if n.func.attr in MUT:
                     containers.append(n.func.value)
+                    if isinstance(n.func.value, ast.Subscript):
+                        # d[k].append(x): the list is held (by value) in d, which changes as well
+                        containers.append(n.func.value.value)
             self.generic_visit(n)
 
         def visit_ListComp(self, n):
@@ -318,7 +321,10 @@ def cut_loop(it, node, env, spec, iterable):
                 i = env.lookup(iname)
                 ctx.assume(i.t < z3.Length(seq))
                 instantiate_at(ctx, seq, i.t)
-                it.assign(node.target, pv.elem_value(iterable, seq[i.t]), env)
+                ev = pv.elem_value(iterable, seq[i.t])
+                if isinstance(ev, SAny) and not ctx.feasible(z3.Not(PV.is_PStr(ev.t))):
+                    ev = pv.SStr(PV.s(ev.t))         # the element is known to be a string: typed leaf
+                it.assign(node.target, ev, env)
             elif mode in ('keys', 'set'):
                 ek = ctx.fresh(z3.StringSort(), 'key')       # keys of symbolic dicts / sets are strings
                 key = pv.SStr(ek)
